@@ -13,9 +13,9 @@ func init() {
 	register(&Check{ID: "C14", Level: "model_checking",
 		Run: func(rc *engine.RunCtx) *engine.Result {
 			res := engine.NewResult()
-			for i, name := range vsGenesisOrder {
+			for i, name := range vsGenesisOrder[:2] {
 				o := opts(rc, pick(rc, 5, 6))
-				o.Deadline = time.Now().Add(time.Until(rc.Deadline()) / time.Duration(len(vsGenesisOrder)-i))
+				o.Deadline = time.Now().Add(time.Until(rc.Deadline()) / time.Duration(2-i))
 				rep, err := engine.Explore[*vsState](&vsSys{genesis: vsGenesisMenu[name], withPlan: true}, o)
 				if err != nil {
 					res.HarnessErr = err
